@@ -537,3 +537,30 @@ func sameOnOld(he *HeapEnv, loc, x, y, a0 string) string {
 	}
 	return fmt.Sprintf("(forall ((?r Int)) (=> (<= ?r %s) (= (select %s ?r) (select %s ?r))))", a0, x, y)
 }
+
+// ghost location: newline bytes written to a strings.Builder
+const builderNLLoc = "C:$builder.newlines"
+
+// cnt_nl(row, lo, hi): number of elements equal to '\n' in row[lo:hi).  Uninterpreted; every
+// syntactic occurrence gets its one-step unfolding at lo (ground instance, no quantifier).
+func (vc *VC) cntNL(row, lo, hi string) string {
+	vc.sc.decl("cnt_nl", "(declare-fun cnt_nl ((Array Int Int) Int Int) Int)")
+	usedAxioms["A2:cnt_nl (newline count of a rune array: uninterpreted with its one-step unfolding)"] = true
+	r := vc.sc.define("rows.row", "(Array Int Int)", row)
+	l := vc.sc.define("rows.lo", "Int", lo)
+	h := vc.sc.define("rows.hi", "Int", hi)
+	t := app("cnt_nl", r, l, h)
+	if strings.Contains(t, "?") {
+		return t
+	}
+	key := "inst:" + t
+	if !vc.sc.declSet[key] {
+		vc.sc.declSet[key] = true
+		next := app("cnt_nl", r, app("+", l, "1"), h)
+		vc.sc.assume(and(app(">=", t, "0"),
+			implies(app(">=", l, h), eq(t, "0")),
+			implies(app("<", l, h), eq(t, app("+", ite(eq(app("select", r, l), "10"), "1", "0"), next))),
+			app(">=", next, "0")))
+	}
+	return t
+}
